@@ -444,7 +444,17 @@ func rotNamed(a int) (x int, s string, f float64) {
 	return x + 1, s + string(rune('a'+x%26)), f * float64(x+1)
 }
 
+func blankResult(a int) (_ int, y int) {
+	y = a * 2
+	if a%3 == 0 {
+		return
+	}
+	return a, y + 1
+}
+
 func namedResults(n int) {
+	b1, b2 := blankResult(n)
+	hook.Ev("blank-result", n, b1, b2)
 	x, y := swapNamed(n, n+7)
 	p, q := swapNamed(n+1, n+9)
 	a, b, c := rotNamed(n)
